@@ -183,6 +183,9 @@ impl Generator {
             Get | BinGet | LongBinGet => !self.state.memo.is_empty(),
 
             // PUT operations - need something to memoize (and not MARK)
+            // BINPUT carries a one-byte index: with 256 or more memo entries the next free
+            // index does not fit, and wrapping would re-define an existing entry
+            BinPut if self.state.memo.len() >= 256 => false,
             Put | BinPut | LongBinPut | Memoize => {
                 self.state.stack.len() >= 1
                     && self
